@@ -357,6 +357,24 @@ def _concrete_violation():
         v3 = pickle.loads(pickle.dumps(v))
         if repr(_norm(v3.to_dict())) != repr(_norm(d1)):
             return True, f'{vt} vine: pickle round trip changes to_dict'
+    # the concrete classes' own from_dict / load, first thing in a fresh interpreter (class-level caches are empty)
+    import subprocess
+    import sys
+    code = ("import json, os, tempfile\n"
+            "from copulas.bivariate import Frank, Clayton, Gumbel\n"
+            "for cls, th, tau in ((Frank, 2.0, 0.2), (Clayton, 1.5, 0.4), (Gumbel, 2.5, 0.6)):\n"
+            "    m = cls(); m.theta, m.tau = th, tau\n"
+            "    m2 = cls.from_dict(m.to_dict())\n"
+            "    assert type(m2) is cls and m2.to_dict() == m.to_dict(), (cls.__name__, m2)\n"
+            "    p = os.path.join(tempfile.mkdtemp(), 'c.json'); m.save(p)\n"
+            "    m3 = cls.load(p)\n"
+            "    assert type(m3) is cls and m3.to_dict() == m.to_dict(), (cls.__name__, m3)\n"
+            "print('ok')\n")
+    env = dict(os.environ, PYTHONPATH=os.pathsep.join(p_ for p_ in sys.path if p_))
+    pr = subprocess.run([sys.executable, '-W', 'ignore', '-c', code], capture_output=True, text=True, env=env, timeout=120)
+    if pr.returncode != 0 or 'ok' not in pr.stdout:
+        return True, ('in a fresh interpreter <Family>.from_dict(to_dict(m)) / <Family>.load(save(m)) on the concrete bivariate class fails: '
+                      + (pr.stderr.strip().splitlines() or ['?'])[-1][:200])
     return False, ''
 
 
